@@ -68,7 +68,8 @@ pub fn hash128(b: &[u8]) -> u128 {
     h1 ^= b.len() as u64;
     h2 = h2.wrapping_add((b.len() as u64).wrapping_mul(0xBF58_476D_1CE4_E5B9));
     h2 ^= h2 >> 29;
-    ((h1 as u128) << 64) | h2 as u128
+    // top bit is kept clear: monitors use it to tag non-output entries in the same set
+    (((h1 as u128) << 64) | h2 as u128) & !(1u128 << 127)
 }
 
 pub fn hex(b: &[u8]) -> String {
@@ -393,6 +394,8 @@ pub struct Violation {
     pub replay: Value,
 }
 
+pub const SET_CAP: usize = 2_000_000;
+
 /// per-check accumulator shared by all monitors
 pub struct Acc {
     pub evaluations: u64,
@@ -405,6 +408,8 @@ pub struct Acc {
     /// pickles queued for the CPython cross-check: (bytes, o2_accepts, n_ops)
     pub o3: Vec<(Vec<u8>, bool, u32)>,
     pub max_violations: usize,
+    /// per-thread cap on sampled (unflagged) pickles queued for the CPython cross-check
+    pub o3_cap: usize,
 }
 
 impl Default for Acc {
@@ -425,6 +430,18 @@ impl Acc {
             inconclusive: Vec::new(),
             o3: Vec::new(),
             max_violations: 50,
+            o3_cap: if std::env::var("PFV_TIER").map(|t| t == "thorough").unwrap_or(false) { 12_000 } else { 1_200 },
+        }
+    }
+    /// distinct-output bookkeeping is capped (conservative undercount beyond the cap)
+    pub fn ins_distinct(&mut self, h: u128) {
+        if self.distinct.len() < SET_CAP {
+            self.distinct.insert(h);
+        }
+    }
+    pub fn ins_nontrivial(&mut self, h: u128) {
+        if self.nontrivial.len() < SET_CAP {
+            self.nontrivial.insert(h);
         }
     }
     pub fn count(&mut self, key: &str, n: u64) {
@@ -453,8 +470,12 @@ impl Acc {
     }
     pub fn merge(&mut self, o: Acc) {
         self.evaluations += o.evaluations;
-        self.distinct.extend(o.distinct);
-        self.nontrivial.extend(o.nontrivial);
+        for h in o.distinct {
+            self.ins_distinct(h);
+        }
+        for h in o.nontrivial {
+            self.ins_nontrivial(h);
+        }
         for s in o.samples {
             self.sample(s);
         }
